@@ -175,8 +175,8 @@ func genInbox(r *rng, ty string, k int) *scenario {
 		var objs []interface{}
 		for i := 0; i < nobj; i++ {
 			h := remote
-			if r.chance(1, 6) {
-				h = pick(r, []string{"https://remote.example:444", "https://REMOTE.example", "https://sub.remote.example", local})
+			if r.chance(1, 3) {
+				h = pick(r, []string{"https://remote.example:444", "https://remote.example:443", "https://REMOTE.example", "https://sub.remote.example", "https://u:p@remote.example", local})
 			}
 			o := jmap{"type": "Note", "id": fmt.Sprintf("%s/notes/%d-%d", h, k, i), "content": "updated"}
 			if ty == "Delete" && r.chance(1, 2) {
@@ -186,6 +186,9 @@ func genInbox(r *rng, ty string, k int) *scenario {
 			}
 		}
 		act["object"] = one(objs)
+		if r.chance(1, 5) { // the activity id itself carries a port the objects lack
+			act["id"] = strings.Replace(id, remote, "https://remote.example:8443", 1)
+		}
 	case "Follow":
 		target := alice
 		if r.chance(1, 4) {
